@@ -1,5 +1,6 @@
 import PeptVerif.Model.SeqDigest
 import PeptVerif.Spec.Spans
+import PeptVerif.Lemmas.RegexLite
 /-! Hypotheses of the sequential = simultaneous clause of C06, stated on site functions. -/
 namespace Spans
 
@@ -33,8 +34,25 @@ def UnionShortcutFree (text : List Char) (rules : List RegexLite.Pattern) : Prop
 instance (text : List Char) (rules : List RegexLite.Pattern) : Decidable (UnionShortcutFree text rules) := by
   unfold UnionShortcutFree; infer_instance
 
-/-- the rule has a look-behind: it never cuts at the start of a text -/
-def startSafe (p : RegexLite.Pattern) : Bool := p.any fun it => match it with | .behind _ => true | _ => false
+/-- rule shapes for which the sequential clause is proved: look-around only (every named protease), or one
+consumed residue followed by look-around (`([KR])`, `K`, `[DE]`, `(D)(?=E)`, `(K)(?!P)`) -/
+def localRule (p : RegexLite.Pattern) : Bool :=
+  match p with
+  | .consume _ :: zw => zw.all RegexLite.Item.zeroWidth
+  | _ => p.all RegexLite.Item.zeroWidth
+
+/-- whether a local rule cuts between two adjacent residues (`none` = start / end of the text) -/
+def cutsAt (p : RegexLite.Pattern) (prev next : Option Char) : Bool :=
+  match p with
+  | .consume cls :: zw =>
+    (match prev with
+     | some c => cls.contains c && RegexLite.holdsAt zw (some c) next
+     | none => false)
+  | _ => RegexLite.holdsAt p prev next
+
+/-- the rule has a look-behind or consumes a residue: it never cuts at the start of a text -/
+def startSafe (p : RegexLite.Pattern) : Bool :=
+  p.any fun it => match it with | .behind _ => true | .consume _ => true | _ => false
 
 /-- the rule has a positive look-ahead (`(?=[..])` or `(?=[^..])`): it never cuts at the end of a text -/
 def endSafe (p : RegexLite.Pattern) : Bool :=
